@@ -5,7 +5,7 @@ set -e
 P=$1; PATCH=$2; TAG=$(basename $(dirname $PATCH))
 R=/tmp/seedrun/$TAG
 rm -rf $R; mkdir -p $R
-git -C /repo worktree add --detach $R/repo HEAD >/dev/null 2>&1
+git -C /repo worktree prune; git -C /repo worktree add -f --detach $R/repo HEAD >/dev/null 2>&1
 # uncommitted hook files / fixes of builders still at work are part of the tree under test
 (cd /repo && git diff) | (cd $R/repo && git apply --allow-empty 2>/dev/null || true)
 (cd /repo && git ls-files --others --exclude-standard | grep '_verif.go$' | while read f; do mkdir -p $R/repo/$(dirname $f); cp $f $R/repo/$f; done)
